@@ -59,35 +59,90 @@ def catVerdict (s : Store) (rows : List RNacos.LogManager.CatRow) : Option Strin
     | some f0, some i => if f0.splitOff == i then none else some s!"the first log file is split at {f0.splitOff} but the log starts at {i}"
     | _, _ => none
 
-def step (s : Store) (ws : List String) : Store × String := answer s ws
+/-- the answers of operations that can change the catalogue of log files carry it (` cat=<rows>`): the list-level model
+makes no statement about that part -/
+def step (s : Store) (ws : List String) : Store × String :=
+  let r := answer s ws
+  match ws with
+  | "open" :: _ | ["reopen"] | "a" :: _ | "b" :: _ | "del" :: _ | "compact" :: _ =>
+    if r.2 == "ok" || r.2 == "err" then (r.1, r.2 ++ " **") else r
+  | _ => r
 
 /-- the spec oracle is the same specification, judging the implementation's answers -/
 structure SpecSt where
   pending : List String := []
   s : Store := {}
   opened : Bool := false
+  m : RNacos.LogManager.Mgr := {}      -- the manager-level model, executed with the observed roll-over decisions
+  mgrOn : Bool := false
+
+def showRows (rows : List RNacos.LogManager.CatRow) : String :=
+  if rows.isEmpty then "-" else
+  ",".intercalate (rows.map fun r => s!"{r.id}:{r.start}:{r.count}:{r.splitOff}:{if r.closed then 1 else 0}")
+
+/-- *when is a file full* read off the catalogue observed after the operation: a file is full exactly when it holds as
+many records as the count it was closed with -/
+def fullFrom (rows : List RNacos.LogManager.CatRow) : RNacos.LogManager.File → Bool :=
+  fun f => rows.any fun r => r.id == f.id && r.closed && r.count == f.recs.length && f.recs.length > 0
+
+/-- one operation of the manager-level model -/
+def mgrStep (m : RNacos.LogManager.Mgr) (rows : List RNacos.LogManager.CatRow) (op : List String) :
+    Option (RNacos.LogManager.Mgr × Option Bool) :=
+  let full := fullFrom rows
+  match op with
+  | "open" :: _ => some ({}, none)
+  | ["reopen"] => some (RNacos.LogManager.reopen m, none)
+  | ["a", i, t, len, sd] =>
+    let r := RNacos.LogManager.writeBatch full m (mkEnts (n i) (n t) 1 (n len) (n sd))
+    some (r.1, some (r.2 == .ok))
+  | ["b", i, t, c, len, sd] =>
+    let r := RNacos.LogManager.writeBatch full m (mkEnts (n i) (n t) (n c) (n len) (n sd))
+    some (r.1, some (r.2 == .ok))
+  | ["del", k] => some (RNacos.LogManager.strip m (n k), none)
+  | ["compact", i, t] => some (RNacos.LogManager.compact full m (n i) (n t), none)
+  | _ => none
 
 def specStep (st : SpecSt) (ws : List String) : SpecSt × String :=
   match ws with
   | [">", "closed"] => ({ st with pending := [] }, "-")
-  | ">" :: ans =>
+  | ">" :: ans0 =>
     let op := st.pending
+    -- the catalogue part of the answer is judged separately
+    let catTok := ans0.find? (·.startsWith "cat=")
+    let ans := ans0.filter fun w => !w.startsWith "cat="
     let r := answer st.s op
     let st2 := { st with pending := [], s := r.1 }
+    -- the manager-level model, step by step, against the persisted catalogue
+    let (st3, mv) : SpecSt × Option String :=
+      match catTok.bind (fun t => parseRows (t.drop 4).toString), mgrStep st.m ((catTok.bind (fun t => parseRows (t.drop 4).toString)).getD []) op with
+      | some rows, some (m', okAns) =>
+        let isOpen := op.head? == some "open"
+        if !(st.mgrOn || isOpen) then (st2, none)
+        else
+          let cat' := RNacos.LogManager.catalogue m'.files
+          let st3 := { st2 with m := m', mgrOn := true }
+          if cat' != rows then
+            ({ st3 with mgrOn := false }, some s!"spec CORR manager model's catalogue [{showRows cat'}] differs from the persisted one [{showRows rows}]")
+          else if (match okAns with | some b => (ans.head? == some "ok") != b | none => false) then
+            ({ st3 with mgrOn := false }, some "spec CORR manager model and implementation disagree about the acceptance of the append")
+          else if RNacos.LogManager.absEnts m'.files != st2.s.ents || RNacos.LogManager.absNext m'.files != st2.s.next then
+            ({ st3 with mgrOn := false }, some "spec CORR manager model and list specification differ (outside the hypotheses of the refinement theorems)")
+          else (st3, none)
+      | _, _ => (st2, none)
     match op with
-    | "files" :: _ => (st2, "-")
+    | "files" :: _ => (st3, "-")
     | ["cat"] =>
       match ans with
       | ["cat", t] =>
         match parseRows t with
-        | some rows => (st2, match catVerdict st2.s rows with | some m => "spec FAIL " ++ m | none => "spec ok")
-        | none => (st2, "spec FAIL unparsable catalogue")
-      | _ => (st2, "spec FAIL no catalogue")
-    | "open" :: _ => (st2, if ans == ["ok"] then "spec ok" else "spec FAIL the store does not open")
-    | ["reopen"] => (st2, if ans == ["ok"] then "spec ok" else "spec FAIL the store does not reopen")
+        | some rows => (st3, match catVerdict st3.s rows with | some m => "spec FAIL " ++ m | none => "spec ok")
+        | none => (st3, "spec FAIL unparsable catalogue")
+      | _ => (st3, "spec FAIL no catalogue")
+    | "open" :: _ => (st3, if ans == ["ok"] then (mv.getD "spec ok") else "spec FAIL the store does not open")
+    | ["reopen"] => (st3, if ans == ["ok"] then (mv.getD "spec ok") else "spec FAIL the store does not reopen")
     | _ =>
-      if " ".intercalate ans == r.2 then (st2, "spec ok")
-      else (st2, s!"spec FAIL answer differs from the log of acknowledged entries: want [{r.2}]")
+      if " ".intercalate ans == r.2 then (st3, mv.getD "spec ok")
+      else (st3, s!"spec FAIL answer differs from the log of acknowledged entries: want [{r.2}]")
   | _ => ({ st with pending := ws }, "")
 
 end RNacos.Driver.StoreDrv
